@@ -183,6 +183,32 @@ pub fn drive_c13(args: &[String]) {
             let mut ie = inter_event(a, b, &fg.relators.iter().map(letters).collect(), &mut rng); ie["grp"] = json!(grp); sink.emit(ie);
         }
     }
+    // (d) any finitely presented group: free groups, free products, generators that occur in no relator, one-relator
+    // groups.  Every low-index table, every base row; the abelianisation of the stabiliser presentation is compared with
+    // the first homology of the covering complex (Trace_C13!CoverH1)
+    let anyk = arg_usize(args, "--anyk", 3);
+    for gr in infinite_corpus() {
+        let rels = words(&gr.rels);
+        let tables: Vec<CosetTable> = catch(|| coset_tables(gr.ng, &rels, anyk).collect::<Vec<_>>()).unwrap_or_default();
+        let grp = format!("any_{}", gr.name.replace(' ', "_"));
+        let mut tables = tables;
+        if tables.len() > 3 * per_group { let first = tables[0].clone(); tables.shuffle(&mut rng); tables.truncate(3 * per_group); tables.push(first); }
+        for t in &tables {
+            if t.len() * gr.ng > 12 { continue; }
+            for base in 0..t.len() {
+                let mut e = json!({"ev": "stab_any", "grp": grp, "name": gr.name, "ng": gr.ng, "rels": gr.rels, "table": table_json(t), "base": base});
+                pending(&e);
+                match catch(|| stabilizer(base, rels.iter().cloned(), t)) {
+                    Ok((sg, sr)) => {
+                        e["sgens"] = json!(sg.iter().map(letters).collect::<Vec<_>>());
+                        e["srels"] = json!(sr.iter().map(letters).collect::<Vec<_>>());
+                    }
+                    Err(m) => { e["panic"] = json!(m); }
+                }
+                sink.emit(e);
+            }
+        }
+    }
     // (c) large tables (more than 256 rows: row numbers that do not fit a byte): regular tables of cyclic and dihedral groups.
     // A wrong core computation can need gigabytes and minutes, so each case runs in a sacrificial child process with a
     // memory and a time limit; a child that does not survive is recorded as a failed call (like a panic)
